@@ -10,15 +10,19 @@ import shutil
 from engine import (Check, tlc, tlc_ok, validate_traces, scratch, bfg_configure,
                     pmap, run, tool_env, tree_snapshot, MachineryError)
 
-NAMES = ['a', 'ab', 'cd', 'a.b']
+NAMES = ['a', 'ab', 'cd', 'a.b', 'sub', 'deep']
+TDIRS = [[], ['ab'], ['a', 'ab'], ['cd', 'sub'], ['deep', 'a']]
 STEMS = ['x', 'ab', 'cd', 'x.y']
 EXTS = ['c', 'cpp']
 SUBDIRS = ['sub', 'deep', 'er']
+TDEFS = 'TDirsDef == {' + ', '.join('<<' + ', '.join('"%s"' % c for c in t) + '>>' for t in TDIRS) + '}'
+
 
 
 def cfg(mode, maxdepth=2, maxdirs=2, bug=False):
     c = ('CONSTANTS\n Names = {%s}\n Stems = {%s}\n Exts = {%s}\n'
-         ' MaxDepth = %d\n MaxDirs = %d\n DotsUnescaped = %s\n' % (
+         ' MaxDepth = %d\n MaxDirs = %d\n DotsUnescaped = %s\n'
+         ' TDirs <- TDirsDef\n' % (
              ', '.join(json.dumps(x) for x in NAMES),
              ', '.join(json.dumps(x) for x in STEMS),
              ', '.join(json.dumps(x) for x in EXTS), maxdepth, maxdirs,
@@ -64,9 +68,10 @@ def make_project(root, case):
                 elif kind == 'object_files':
                     f.write("r = object_files(%r)\n" % refs)
                 else:
-                    f.write("%s('prog', %r)\n" % (
-                        kind, refs + (['zz_main.c'] if kind == 'executable'
-                                      else [])))
+                    f.write("%s(%r, %r)\n" % (
+                        kind, '/'.join(case.get('tdirs', []) + ['prog']),
+                        refs + (['zz_main.c'] if kind == 'executable'
+                                else [])))
                 with open(os.path.join(sd, 'zz_main.c'), 'w') as g:
                     g.write('int main(void){return 0;}\n')
     for k, s in enumerate(case['sources']):
@@ -285,18 +290,19 @@ def main(argv):
     ck = Check('C05', argv)
     # 1. design model: injective, clash exactly on extension-only difference
     md = (2, 1) if ck.quick else (2, 2)
-    r = tlc_ok('ObjNames', cfg('mc', *md))
+    r = tlc_ok('ObjNames', cfg('mc', *md), defs=TDEFS)
     if r.invariant_violated:
         ck.machinery('design model violates the contract:\n' + r.tail(40))
     ck.add_model(r, 'ObjNames design model depth<=%d dirs<=%d' % md)
     # the pre-fix pattern, kept as a vacuity guard: TLC must find the collision
-    rb = tlc('ObjNames', cfg('mc', 1, 1, bug=True))
+    rb = tlc('ObjNames', cfg('mc', 1, 1, bug=True), defs=TDEFS)
     if not rb.invariant_violated:
         ck.machinery('vacuity guard: unescaped-dots model shows no collision')
 
     # 2. cases from TLC
     n = 700 if ck.quick else 12000
-    g = tlc_ok('ObjNames_Gen', cfg('gen'), workers=1, simulate='num=%d' % n,
+    g = tlc_ok('ObjNames_Gen', cfg('gen'), defs=TDEFS, workers=1,
+               simulate='num=%d' % n,
                depth=3, seed=ck.seed)
     cases, seen = [], set()
     for p in g.prints:
@@ -316,6 +322,7 @@ def main(argv):
         traces.append({'id': i + 1, 'events': [ev]})
     ck.evaluations = len(traces)
     rej, st = validate_traces('ObjNames_Trace', cfg('trace'), traces,
+                              defs=TDEFS,
                               chunk=2000)
     ck.traces = len(traces)
     ck.states += st['distinct']
